@@ -526,13 +526,13 @@ pub fn def(tier: Tier) -> PropertyDef {
 	}
 	for name in cfggen::NAMES {
 		let strat = (cfggen::config_strategy(name, cfggen::GenOpts { wide: true, price_sources: false, nonneg_ma: false }), crate::gen::candle_stream(1, tier.pick(300, 900))).prop_map(|(cfg, s)| IStreamCase { cfg, s });
-		checks.push(pt(&format!("stream_{name}"), tier.pick(600, 3000), strat, run_indicator_stream));
+		checks.push(pt(&format!("stream_{name}"), tier.pick(600, 20000), strat, run_indicator_stream));
 	}
 	for name in cfggen::NAMES {
 		let strat = (cfggen::config_strategy(name, cfggen::GenOpts { wide: false, price_sources: false, nonneg_ma: false }), crate::gen::trend_candle_stream(tier.pick(3000, 30000))).prop_map(|(cfg, s)| IStreamCase { cfg, s });
-		checks.push(pt(&format!("trend_{name}"), tier.pick(240, 800), strat, run_indicator_trend));
+		checks.push(pt(&format!("trend_{name}"), tier.pick(240, 3000), strat, run_indicator_trend));
 	}
-	checks.push(pt("strings", tier.pick(80000, 400000), string_strategy(), run_string));
+	checks.push(pt("strings", tier.pick(80000, 3000000), string_strategy(), run_string));
 	let _ = fail_unused;
 	checks.extend(crate::fuzz_entry::corpus_checks("C10"));
 	PropertyDef {
